@@ -241,6 +241,7 @@ def run(prog: Program, res: Result, tier: str) -> None:
 
     # ---- R4 label span ----------------------------------------------------------------------------------------
     _label_span(prog, res)
+    _read_block_selection(prog, res)
 
     # ---- R5 unit lints --------------------------------------------------------------------------------------------
     n5 = 0
@@ -436,6 +437,45 @@ def _same_request(f: FuncInfo, v: ast.AST, producer: ast.Call) -> bool:
                 and s.value.func.attr == "reshape" and s.value.args and norm(s.value.args[0]) == v.id:
             return True
     return False
+
+
+def _read_block_selection(prog: Program, res: Result) -> None:
+    """Sub-band requests of read_block (both readers): the rows `data[cs : cs + n]` are exactly n rows of the band only when
+    0 <= cs and cs + n <= header.nchans - otherwise the slice is silently shorter than the `nchans` the header is given (or
+    empty) - and the label of the first row is the centre of channel cs, `header.fch1 + cs*foff`, for either sign of foff."""
+    from ..pathcond import guarded
+    for cname in ("FilReader", "PFITSReader"):
+        f = prog.func("sigpyproc.readers", f"{cname}.read_block")
+        flow = flow_of(f)
+        ups = [(c, d) for c, d, k2, _ in _header_updates(f) if k2 == "new_header" and d]
+        rows = [s_ for s_ in body_walk(f.node) if isinstance(s_, ast.Assign) and isinstance(s_.value, ast.Subscript) and isinstance(s_.value.slice, ast.Slice)
+                and s_.value.slice.lower is not None and s_.value.slice.upper is not None and s_.value.slice.step is None
+                and norm(s_.value.slice.lower) in norm(s_.value.slice.upper) and "chan" in norm(s_.value.slice.lower)]
+        key = f"{cname}.read_block:rows"
+        if len(ups) != 1 or len(rows) != 1:
+            res.bad("R1", f, f.node, "cannot identify the channel slice and the header of the block", construct="read_block", key=key)
+            continue
+        c, d = ups[0]
+        lo, up = rows[0].value.slice.lower, rows[0].value.slice.upper
+        P_ = lambda e: PolyEnv().poly(e)  # noqa: E731
+        n_rows = P_(up) - P_(lo)
+        why = []
+        if "nchans" not in d or P_(d["nchans"]) != n_rows:
+            why.append(f"the header's nchans (`{norm(d.get('nchans', ast.Constant(None)))}`) is not the length of the slice ({n_rows.canon()})")
+        names_ = {n_.id for e_ in (lo, up) for n_ in ast.walk(e_) if isinstance(n_, ast.Name)}
+        okg, whyg = guarded(flow, [rows[0]], [("<=0", -P_(lo)), ("<=0", P_(up) - Poly.sym("self.header.nchans"))], stop=names_)
+        if not okg:
+            why.append("the slice is not known to lie inside the band (0 <= first row, last row <= header.nchans): " + "; ".join(whyg) +
+                       " - a request reaching past the band gives fewer rows than the header declares")
+        (res.ok if not why else res.bad)("R1", f, rows[0], "the rows copied are exactly the `nchans` channels the header declares, inside the band; anything else "
+                                         "raises ValueError" if not why else "; ".join(why), key=key)
+        key = f"{cname}.read_block:label"
+        lab = d.get("fch1")
+        okl = lab is not None and (PolyEnv().poly(flow.expand(lab, flow.cfg.node_for(c), stop={norm(lo)} if isinstance(lo, ast.Name) else set()))
+                                   == Poly.sym("self.header.fch1") + P_(lo) * Poly.sym("self.header.foff"))
+        (res.ok if okl else res.bad)("R4", f, c, "the first row is labelled with the centre of the channel it was copied from (header.fch1 + first row * foff)"
+                                     if okl else f"the block's fch1 is `{norm(lab) if lab is not None else '?'}`, not header.fch1 + <first row>*foff: a requested "
+                                     "frequency off the channel grid labels every row wrongly", key=key)
 
 
 def _label_span(prog: Program, res: Result) -> None:
@@ -641,6 +681,14 @@ def _scaling_and_dm(prog: Program, res: Result) -> None:
 
 B = "sigpyproc/base.py"
 MUTANTS = [
+    {"id": "c08-revert-F39-guard", "file": "sigpyproc/readers.py", "expect": "C08.R1",
+     "old": "        if chan_start < 0 or nchans < 1 or chan_start + nchans > self.header.nchans:\n            msg = f\"requested block is out of range: fch1={fch1}, nchans={nchans}\"\n            raise ValueError(msg)\n        if start < 0 or start + nsamps > self.header.nsamples:\n            msg = f\"requested block is out of range: start={start}, nsamps={nsamps}\"\n            raise ValueError(msg)\n\n        self._file.seek",
+     "new": "        if fch1 > self.header.fch1 or nchans > self.header.nchans:\n            msg = f\"requested block is out of range: fch1={fch1}, nchans={nchans}\"\n            raise ValueError(msg)\n        if start < 0 or start + nsamps > self.header.nsamples:\n            msg = f\"requested block is out of range: start={start}, nsamps={nsamps}\"\n            raise ValueError(msg)\n\n        self._file.seek"},
+    {"id": "c08-revert-F39-label", "file": "sigpyproc/readers.py", "expect": "C08.R4",
+     "old": "                \"nsamples\": nsamps_read,\n                \"fch1\": self.header.fch1 + chan_start * self.header.foff,", "new": "                \"nsamples\": nsamps_read,\n                \"fch1\": fch1,"},
+    {"id": "c08-read-block-upper-bound-only", "file": "sigpyproc/readers.py", "expect": "C08.R1",
+     "old": "        if chan_start < 0 or nchans < 1 or chan_start + nchans > self.header.nchans:\n            msg = f\"requested block is out of range: fch1={fch1}, nchans={nchans}\"\n            raise ValueError(msg)\n        if start < 0 or start + nsamps > self.header.nsamples:\n            msg = f\"requested block is out of range: start={start}, nsamps={nsamps}\"\n            raise ValueError(msg)\n\n        startsub",
+     "new": "        if nchans < 1 or chan_start + nchans > self.header.nchans:\n            msg = f\"requested block is out of range: fch1={fch1}, nchans={nchans}\"\n            raise ValueError(msg)\n        if start < 0 or start + nsamps > self.header.nsamples:\n            msg = f\"requested block is out of range: start={start}, nsamps={nsamps}\"\n            raise ValueError(msg)\n\n        startsub"},
     {"id": "c08-dedisperse-tstart-without-lead", "file": "sigpyproc/base.py", "expect": "C08.R2",
      "old": "                    \"nsamples\": tim_len,\n                    \"tstart\": self.header.mjd_after_nsamps(start - min_delay),", "new": "                    \"nsamples\": tim_len,\n                    \"tstart\": self.header.mjd_after_nsamps(start + min_delay),"},
     {"id": "c08-dedisp-no-nsamples", "file": B, "expect": "C08.R1",
@@ -654,8 +702,8 @@ MUTANTS = [
     {"id": "c08-bands-fch1-no-chanstart", "file": B, "expect": "C08.R4",
      "old": "        fstart = self.header.fch1 + chanstart * self.header.foff", "new": "        fstart = self.header.fch1"},
     {"id": "c08-readblock-int", "file": "sigpyproc/readers.py", "expect": "C08.R5",
-     "old": "        self._file.seek(start * self.samp_stride)\n        data = self._file.cread(self.header.nchans * nsamps)\n        nsamps_read = data.size // self.header.nchans\n        data = data.reshape(nsamps_read, self.header.nchans).transpose()\n\n        chan_start = round(",
-     "new": "        self._file.seek(start * self.samp_stride)\n        data = self._file.cread(self.header.nchans * nsamps)\n        nsamps_read = data.size // self.header.nchans\n        data = data.reshape(nsamps_read, self.header.nchans).transpose()\n\n        chan_start = int("},
+     "old": "        # Channel whose centre is nearest to fch1 (the band may ascend or descend)\n        chan_start = round((fch1 - self.header.fch1) / self.header.foff)\n        nchans = nchans if nchans is not None else self.header.nchans - chan_start\n        if chan_start < 0 or nchans < 1 or chan_start + nchans > self.header.nchans:\n            msg = f\"requested block is out of range: fch1={fch1}, nchans={nchans}\"\n            raise ValueError(msg)\n        if start < 0 or start + nsamps > self.header.nsamples:\n            msg = f\"requested block is out of range: start={start}, nsamps={nsamps}\"\n            raise ValueError(msg)\n\n        self._file.seek",
+     "new": "        chan_start = int((fch1 - self.header.fch1) / self.header.foff)\n        nchans = nchans if nchans is not None else self.header.nchans - chan_start\n        if chan_start < 0 or nchans < 1 or chan_start + nchans > self.header.nchans:\n            msg = f\"requested block is out of range: fch1={fch1}, nchans={nchans}\"\n            raise ValueError(msg)\n        if start < 0 or start + nsamps > self.header.nsamples:\n            msg = f\"requested block is out of range: start={start}, nsamps={nsamps}\"\n            raise ValueError(msg)\n\n        self._file.seek"},
     {"id": "c08-pad-no-nsamples", "file": "sigpyproc/block.py", "expect": "C08.R1",
      "old": "            self.header.new_header({\"nsamples\": nsamps_final}),", "new": "            self.header.new_header(),"},
     {"id": "c08-ts-downsample-tsamp", "file": "sigpyproc/timeseries.py", "expect": "C08.R6",
